@@ -36,11 +36,12 @@ PROPS = {
             "rule": PIPE_RULE},
     "C03": {"lean": ["C03"], "streams": [{"name": "pipe", "gen": "pipe", "args": {"focus": "requests"}}],
             "rule": PIPE_RULE},
-    "C04": {"lean": ["C04"], "streams": [{"name": "pipe", "gen": "pipe", "args": {"focus": "dialogs"}}],
+    "C04": {"lean": ["C04"], "also": ["C15"],
+            "streams": [{"name": "pipe", "gen": "pipe", "args": {"focus": "dialogs"}}, {"name": "pins", "gen": "pins"}],
             "rule": PIPE_RULE},
     "C06": {"lean": ["C06"], "streams": [{"name": "pipe", "gen": "pipe", "args": {"focus": "requests"}}],
             "rule": PIPE_RULE},
-    "C07": {"lean": ["C07"], "expected": ["Wiring"], "streams": [{"name": "pipe", "gen": "pipe", "args": {"focus": "requests"}}, {"name": "wire", "gen": "wire", "args": {"focus": "c07"}}], "also": ["C12"],
+    "C07": {"lean": ["C07"], "expected": ["Wiring"], "streams": [{"name": "pipe", "gen": "pipe", "args": {"focus": "requests"}}, {"name": "pipe2", "gen": "pipe", "args": {"focus": "responses"}}, {"name": "wire", "gen": "wire", "args": {"focus": "c07"}}], "also": ["C12", "C02"],
             "rule": PIPE_RULE},
     "C12": {"lean": ["C12"], "streams": [{"name": "pipe", "gen": "pipe", "args": {"focus": "tcp"}}],
             "rule": PIPE_RULE},
